@@ -7,6 +7,7 @@ use num_traits::One;
 use proptest::prelude::*;
 use serde::{Deserialize, Serialize};
 
+use super::multi::{self, Multi};
 use super::sm2util::*;
 use crate::engine::*;
 use crate::gen;
@@ -24,6 +25,8 @@ pub enum PtTamper {
     OffCurve,
     /// -R (valid, different)
     Negated,
+    /// another valid point: boundary point #i of the curve (sm2util::edge_points), Z = 1 or 2
+    EdgePoint(usize),
 }
 
 /// alteration of a 32-byte confirmation value in transit
@@ -38,6 +41,8 @@ pub enum STamper {
     Replace(u64),
     /// first byte incremented
     AddOne,
+    /// a multi-byte alteration (see props/multi.rs): keeps the xor / sum / multiset of the bytes or words, or replaces them
+    Multi(Multi),
 }
 
 #[derive(Serialize, Deserialize, Hash, Debug, Clone)]
@@ -72,6 +77,13 @@ fn tamper_point(honest: &Pt<Fp>, lib_honest: &Point, t: &Option<PtTamper>) -> (P
             let lam = from_be(&expand_bytes(seed ^ 0x5a, 32)) % (pr.p - 1u32) + 1u32;
             (q.clone(), lib_point(&q, &lam), !same, true)
         }
+        Some(PtTamper::EdgePoint(i)) => {
+            let eps = edge_points();
+            let (_, x, y) = &eps[*i % eps.len()];
+            let q = r2::pt(x, y);
+            let same = &q == honest;
+            (q.clone(), lib_point(&q, &BigUint::from(1 + (*i as u32 / eps.len() as u32) % 2)), !same, true)
+        }
         Some(PtTamper::Negated) => {
             let q = pr.curve.neg(honest);
             (q.clone(), lib_point(&q, &BigUint::one()), true, true)
@@ -100,6 +112,9 @@ fn flip(h: &[u8; 32], t: &Option<STamper>) -> [u8; 32] {
         Some(STamper::SwapBytes(i, j)) => o.swap((*i % 32) as usize, (*j % 32) as usize),
         Some(STamper::Replace(seed)) => o.copy_from_slice(&expand_bytes(*seed, 32)),
         Some(STamper::AddOne) => o[0] = o[0].wrapping_add(1),
+        Some(STamper::Multi(m)) => {
+            multi::apply(&mut o, m);
+        }
     }
     o
 }
@@ -209,6 +224,7 @@ fn kex(tamper: bool) -> impl Strategy<Value = Kex> {
         1 => (any::<u8>(), any::<u8>()).prop_map(|(i, j)| Some(STamper::SwapBytes(i, j))),
         1 => any::<u64>().prop_map(|s| Some(STamper::Replace(s))),
         1 => Just(Some(STamper::AddOne)),
+        3 => multi::strategy().prop_map(|m| Some(STamper::Multi(m))),
     ];
     (
         (gen::secret_scalar(&(&n - 2u32)), gen::secret_scalar(&(&n - 2u32)), 0..id_pool().len(), 0..id_pool().len()),
@@ -228,7 +244,7 @@ fn kex(tamper: bool) -> impl Strategy<Value = Kex> {
 pub fn run(ctx: &Ctx) {
     ctx.set_rule(
         "a case is a history of the four protocol steps: (dA, dB, ID_A, ID_B, klen, rA, rB) from the edge-biased generators (IDs incl. None/None, empty, different lengths; klen 1..=200 incl. multiples of 32; \
-         ephemeral scalars injected through the RNG hook) plus a subset of {R_A, R_B, S_B, S_A} altered in transit (another valid point, -R, an off-curve point, a single-bit flip of S; and the *same* point in another \
+         ephemeral scalars injected through the RNG hook) plus a subset of {R_A, R_B, S_B, S_A} altered in transit (another valid point incl. the boundary points of the curve, -R, an off-curve point, a single-bit flip of S, multi-byte alterations of S that preserve the xor / sum / multiset of its bytes or words; and the *same* point in another \
          Jacobian representation, which is not an alteration). Oracle: GB/T 32918.3 on the affine reference (w = 127, one-byte tags 0x02/0x03): R_A, R_B, K_B, S_B, K_A, S_A compared exactly; A must fail iff R_A, R_B or S_B was \
          altered, B must accept iff R_A and S_A were not; off-curve R => Err at once. Non-trivial: every history (each includes exact comparisons with fixed rA, rB).",
     );
@@ -269,6 +285,48 @@ pub fn run(ctx: &Ctx) {
                         t_sa: if mask & 8 != 0 { Some(st(s * 91 + 1)) } else { None },
                     });
                 }
+            }
+        }
+        v
+    }, check);
+
+    ctx.listed("edge_point_ephemerals", "R_A (resp. R_B) replaced in transit by a boundary point of the curve (x next to 0, n, p, 2^256-p, powers of two, Montgomery limb patterns, y with a leading zero byte), affine and Z = 2: B must accept the valid point and derive exactly the S_B / K_B of GB/T 32918.3 from it; A must report failure", || {
+        let n = &r2::params().n;
+        let mut v = Vec::new();
+        for i in 0..2 * edge_points().len() {
+            for which in 0..2u8 {
+                if which == 1 && i >= edge_points().len() {
+                    continue;
+                }
+                let s = 0xc15e ^ (i as u64 % 2);
+                let sc = |t: u64, m: &BigUint| gen::hex32(&(from_be(&expand_bytes(s ^ t, 32)) % m + 1u32));
+                v.push(Kex {
+                    da: sc(1, &(n - 2u32)), db: sc(2, &(n - 2u32)), id_a: 1, id_b: 4, klen: 16 + i % 33,
+                    ra: sc(3, &(n - 1u32)), rb: sc(4, &(n - 1u32)),
+                    t_ra: if which == 0 { Some(PtTamper::EdgePoint(i)) } else { None },
+                    t_rb: if which == 1 { Some(PtTamper::EdgePoint(i)) } else { None },
+                    t_sb: None, t_sa: None,
+                });
+            }
+        }
+        v
+    }, check);
+
+    let dense = ctx.tier.pick(false, true);
+    ctx.exhaustive("confirmation_multi_byte_alterations", "S_B (then S_A) altered by the multi-byte family: byte pairs with the same mask (word distances in the quick tier, all pairs in the thorough tier), sum-preserving pairs, rotations, word shuffles, partial keeps, 40 replacements — a folded or partial comparison accepts them", move || {
+        let n = &r2::params().n;
+        let mut v = Vec::new();
+        for (i, m) in multi::family(32, dense, 40).into_iter().enumerate() {
+            for which in 0..2u8 {
+                let s = 0xc15 ^ (i as u64 % 3);
+                let sc = |t: u64, m: &BigUint| gen::hex32(&(from_be(&expand_bytes(s ^ t, 32)) % m + 1u32));
+                v.push(Kex {
+                    da: sc(1, &(n - 2u32)), db: sc(2, &(n - 2u32)), id_a: 1, id_b: 3, klen: 16 + (i % 3) * 16,
+                    ra: sc(3, &(n - 1u32)), rb: sc(4, &(n - 1u32)),
+                    t_ra: None, t_rb: None,
+                    t_sb: if which == 0 { Some(STamper::Multi(m.clone())) } else { None },
+                    t_sa: if which == 1 { Some(STamper::Multi(m.clone())) } else { None },
+                });
             }
         }
         v
